@@ -562,6 +562,9 @@ func main() {
 		if c.Auditor != nil {
 			stats["with-auditor"]++
 		}
+		if len(c.OnlyHelps) > 0 {
+			stats["with-only-helps-watchers"]++
+		}
 		for _, r := range c.Roles {
 			for _, s := range r.Sigs {
 				stats["sig-"+kindNames[s.Kind]+"-"+s.Group]++
